@@ -68,6 +68,9 @@ def wire_cases(rng, quick):
             add('b%d-trunc%d' % (bi, cut), good[:cut])
         for lt in ['', '0', '-1', '-', '5x', '99999999999', '9' * 19, '9' * 25, ' 5', '+5']:
             add('b%d-len[%s]' % (bi, lt), fixgen.build(base[2:-1], begin=base[0][1], len_text=lt))
+    # NumInGroup torture: the counter is read through the typed group accessor
+    for cnt in ['-1', '0', '2', '99', '999999999', '99999999999', '999999999999999999', '9' * 25, 'x', '']:
+        add('grpcount[%s]' % cnt, fixgen.build([(35, 'D'), (49, 'A'), (56, 'B'), (34, '2'), (453, cnt), (448, 'p'), (447, 'D'), (55, 'IBM')]))
     # XMLDataLen torture
     for xl in ['', '0', '-1', '3', '5', '50', '5000', '99999999999999999999', 'x', '4 ']:
         body = [(35, 'n'), (49, 'A'), (56, 'B'), (212, xl), (213, '<a/>'), (58, 'x')]
@@ -77,6 +80,52 @@ def wire_cases(rng, quick):
                 '8=FIX.4.2' + S + '9=0' + S + '35=0' + S + '10=' + S, 'garbage without any structure', '\x00\x01\x02']:
         add('raw%d' % len(cases), raw)
     return cases
+
+
+def run_batch(ctx, sub, cases, extra, part):
+    """runs a driver over the cases; if the PROCESS dies (a fatal error that recover() cannot catch:
+    stack overflow, out of memory), the killing input is isolated by bisection in fresh processes,
+    reported as a violation, and the rest of the batch is run without it."""
+    cp = os.path.join(ctx.scratch, '%s_in.ndjson' % part)
+    tp = os.path.join(ctx.scratch, '%s_out.ndjson' % part)
+
+    def attempt(cs):
+        common.ndjson_write(cp, cs)
+        p = ctx.run_vh([sub, '-cases', cp, '-out', tp] + extra, timeout=3000, env={'GOMEMLIMIT': '4GiB'})
+        return p
+    todo = list(cases)
+    rows = []
+    killers = 0
+    while todo:
+        p = attempt(todo)
+        if p.returncode == 0:
+            rows += common.ndjson_read(tp)
+            break
+        done = common.ndjson_read(tp) if os.path.exists(tp) else []
+        # the driver writes rows in order and flushes at exit only, so bisect instead of trusting the partial file
+        lo, hi = 0, len(todo)
+        while hi - lo > 1:
+            mid = (lo + hi) // 2
+            if attempt(todo[lo:mid]).returncode != 0:
+                hi = mid
+            else:
+                lo = mid
+        killer = todo[lo]
+        if attempt([killer]).returncode == 0:
+            raise common.Infra('vh %s died on a batch but not on the isolated case: %s' % (sub, p.stderr[-800:]))
+        err = attempt([killer]).stderr
+        first = next((l for l in err.splitlines() if 'fatal error' in l or 'runtime:' in l), err[:200])
+        text = killer.get('text') or bytes(killer.get('bytes', [])).decode('latin1')
+        ctx.report({'family': 'robust', 'part': part, 'kind': 'process-death'},
+                   '%s: the process dies (%s) on %r' % (part, first.strip(), text[:200]), {'part': part, 'case': killer})
+        killers += 1
+        ok = attempt(todo[:lo])
+        if ok.returncode == 0:
+            rows += common.ndjson_read(tp)
+        todo = todo[lo + 1:]
+        if killers > 5:
+            break
+    return rows
 
 
 def run(ctx):
@@ -95,20 +144,16 @@ def run(ctx):
         f.write(fixgen.dict_xml('FIX', [8, 9, 35, 49, 56, 34, 52, 50, 212, 213], [93, 89, 10],
                                 {'D': ('NewOrderSingle', [(11, False), (55, False), (58, False), (38, False),
                                                           ('group', 453, False, [(448, False), (447, False), (452, False)])])}))
-    cp = os.path.join(ctx.scratch, 'wire.ndjson')
-    common.ndjson_write(cp, cases)
-    tp = os.path.join(ctx.scratch, 'wire_out.ndjson')
-    p = ctx.run_vh(['wire', '-cases', cp, '-out', tp, '-tdd', tdd, '-add', add, '-getters'], timeout=3000)
-    if p.returncode != 0:
-        raise common.Infra('vh wire died (a crash that recover() cannot catch is itself a finding): rc=%d %s' % (p.returncode, p.stderr[-1500:]))
-    rows = common.ndjson_read(tp)
+    for i, c in enumerate(cases):
+        c['idx'] = i
+    rows = run_batch(ctx, 'wire', cases, ['-tdd', tdd, '-add', add, '-getters'], 'wire')
     counts['wire'] = len(rows)
     for r_ in rows:
         if 'panic' in r_:
-            raw = bytes(cases[rows.index(r_)]['bytes']).decode('latin1')
+            raw = bytes(cases[r_['idx']]['bytes']).decode('latin1')
             kind = 'nochecksum' if '10=' not in raw else ('xmllen' if '212=' in raw else ('emptylen' if '9=' + S in raw else 'other'))
             ctx.report({'family': 'robust', 'part': 'wire', 'kind': kind}, 'ParseMessage/getters: %s on %r (dict=%s)' % (r_['panic'], raw[:120], r_['dict']),
-                       {'part': 'wire', 'case': cases[rows.index(r_)]})
+                       {'part': 'wire', 'case': cases[r_['idx']]})
     samples.append({'part': 'wire', 'bytes': bytes(cases[5]['bytes']).decode('latin1').replace(S, '|')})
     # ---------------- 2 values (reuse the C14 near-miss space; panics only)
     vcases = [c for c in c14.gen_cases(quick, rng) if c['op'] == 'read']
@@ -149,18 +194,13 @@ def run(ctx):
                            {'part': 'framer', 'case': {'id': r_['id'], 'stream': r_['stream']}})
     # ---------------- 4/5 settings, dictionaries, validation
     rcases = robust_cases(rng, quick)
-    rp = os.path.join(ctx.scratch, 'robust.ndjson')
-    common.ndjson_write(rp, rcases)
-    ro = os.path.join(ctx.scratch, 'robust_out.ndjson')
-    p = ctx.run_vh(['robust', '-cases', rp, '-out', ro, '-repo', common.REPO], timeout=3000)
-    if p.returncode != 0:
-        raise common.Infra('vh robust died: rc=%d %s' % (p.returncode, p.stderr[-1500:]))
-    rrows = common.ndjson_read(ro)
+    rrows = run_batch(ctx, 'robust', rcases, ['-repo', common.REPO], 'robust')
+    byid = {c['id']: c for c in rcases}
     for k in ('settings', 'dict', 'validate'):
         counts[k] = sum(1 for r_ in rrows if r_['kind'] == k)
     for i, r_ in enumerate(rrows):
         if 'panic' in r_:
-            c = rcases[i]
+            c = byid[r_['id']]
             sig = {'family': 'robust', 'part': r_['kind']}
             if r_['kind'] == 'settings':
                 sig['setting_before_section'] = c.get('setting_first', False)
